@@ -237,6 +237,21 @@ pub fn rand_word(r: &mut Rng, c: &WordCfg) -> String {
     out
 }
 
+/// a word in which syllables (and so segments) recur, so that variables referring back to a captured segment or syllable
+/// and rules over identical neighbours have something to match: 1-2 syllables drawn once, then repeated / interleaved
+pub fn rand_echo_word(r: &mut Rng, c: &WordCfg) -> String {
+    let cfg = WordCfg { max_sylls: 1, stress: false, tone: false, ..*c };
+    let pool: Vec<String> = (0..r.range(1, 2)).map(|_| rand_word(r, &cfg)).collect();
+    let n = r.range(2, c.max_sylls.max(2) + 1);
+    let mut out = String::new();
+    let primary = if c.stress && r.chance(1, 3) { Some(r.below(n)) } else { None };
+    for i in 0..n {
+        out.push_str(if Some(i) == primary { "ˈ" } else if i > 0 { "." } else { "" });
+        out.push_str(if r.chance(3, 4) { &pool[0] } else { &pool[pool.len() - 1] });
+    }
+    out
+}
+
 // ------------------------------------------------------------------------------------------ rule generator
 #[derive(Clone, Copy)]
 pub struct RuleCfg {
@@ -314,8 +329,18 @@ impl<'a> RuleGen<'a> {
             0 | 1 | 2 => El::Ipa(rand_seg(self.r), if self.r.chance(1, 6) { Some(self.match_mods(true, false)) } else { None }),
             3 | 4 | 5 => { let g = *self.r.pick(&GROUPS); let m = if self.r.chance(1, 4) { Some(self.match_mods(true, false)) } else { None }; let b = if allow_bind { self.bind(false) } else { None }; El::Grp(g, m, b) }
             6 | 7 => { let m = self.match_mods(true, false); let b = if allow_bind { self.bind(false) } else { None }; El::Mat(m, b) }
-            8 => if self.c.sets { let n = self.r.range(2, 3); El::Set((0..n).map(|_| if self.r.chance(1, 2) { El::Ipa(rand_seg(self.r), None) } else { El::Grp(*self.r.pick(&GROUPS), None, None) }).collect()) } else { El::Ipa(rand_seg(self.r), None) },
+            8 => if self.c.sets { let n = self.r.range(2, 3); El::Set((0..n).map(|_| self.set_member()).collect()) } else { El::Ipa(rand_seg(self.r), None) },
             _ => { let b = if allow_bind { self.bind(false) } else { None }; El::Mat(Mods::default(), b) }
+        }
+    }
+    /// a member of a set: mostly segments and groups, now and then a matrix, a syllable or a boundary
+    fn set_member(&mut self) -> El {
+        match self.r.below(20) {
+            0..=8 => El::Ipa(rand_seg(self.r), None),
+            9..=15 => El::Grp(*self.r.pick(&GROUPS), None, None),
+            16 | 17 => El::Mat(self.match_mods(true, false), None),
+            18 => if self.c.sylls { El::Syll(None, None) } else { El::Ipa(rand_seg(self.r), None) },
+            _ => if self.c.bounds { El::SyllB } else { El::Grp(*self.r.pick(&GROUPS), None, None) },
         }
     }
     fn struct_items(&mut self) -> Vec<El> {
@@ -349,7 +374,15 @@ impl<'a> RuleGen<'a> {
             let e = match x {
                 0 if self.c.bounds => El::SyllB,
                 1 if self.c.sylls => self.syll_el(true),
-                2 if self.c.opts => { let k = self.r.range(1, 2); let items: Vec<El> = (0..k).map(|_| self.seg_el(false)).collect(); let (lo, hi) = match self.r.below(4) { 0 => (0, 1), 1 => (0, self.r.range(2, 3)), 2 => (0, 0), _ => (1, self.r.range(1, 3)) }; El::Opt(items, lo, hi) }
+                2 if self.c.opts => {
+                    let k = self.r.range(1, 2);
+                    // the body is segments, now and then a boundary (which matches without consuming anything)
+                    let mut items: Vec<El> = (0..k).map(|_| if self.c.bounds && self.r.chance(1, 8) { El::SyllB } else { self.seg_el(false) }).collect();
+                    if items.iter().all(|e| *e == El::SyllB) { items.truncate(1) }
+                    // bounds: the usual small ones, open, and now and then an enormous explicit maximum
+                    let (lo, hi) = match self.r.below(9) { 0 | 1 => (0, 1), 2 | 3 => (0, self.r.range(2, 3)), 4 | 5 => (0, 0), 6 | 7 => (1, self.r.range(1, 3)), _ => (self.r.below(2), *self.r.pick(&[65536usize, 4294967296, 9999999999999999, usize::MAX])) };
+                    El::Opt(items, lo, hi)
+                }
                 3 if self.c.ellipsis => El::Ellipsis,
                 4 if self.c.vars && !self.bound_vars.is_empty() => { let (n, _) = *self.r.pick(&self.bound_vars.clone()); El::Var(n, None) }
                 _ => self.seg_el(true),
